@@ -800,6 +800,14 @@ func wkGenControl(c *Ctx) wkControl {
 	return wkControl{C: "ref", APIVersion: "rollouts.kruise.io/v1beta1", Kind: "BatchRelease", Name: pickS(c, wkOwnNames...)}
 }
 
+// wkGenTopControl: the control annotation of a pod's top-level workload — mostly the one Initialize writes
+func wkGenTopControl(c *Ctx) wkControl {
+	if c.Rng.Intn(10) < 6 {
+		return wkControl{C: "ref", APIVersion: "rollouts.kruise.io/v1beta1", Kind: "BatchRelease", Name: pickS(c, wkOwnNames...)}
+	}
+	return wkGenControl(c)
+}
+
 func wkGenStatus(c *Ctx) wkStatus {
 	r := c.Rng.Intn(6)
 	return wkStatus{Replicas: r, Ready: c.Rng.Intn(r + 1), Available: c.Rng.Intn(r + 1), Updated: c.Rng.Intn(r + 1), UpdatedReady: c.Rng.Intn(r + 1),
@@ -866,7 +874,7 @@ func wkGenStore(c *Ctx, ns string) ([]wkStore, *wkRef) {
 		return store, nil // pod without controller owner
 	case 1, 2, 3:
 		// Deployment pod: ReplicaSet in between
-		dep := wkStore{GVK: wkGVK{"apps", "v1", "Deployment"}, NS: ns, Name: pickS(c, wkWlNames...), Control: wkGenControl(c), InProgress: c.Rng.Intn(3) == 0}
+		dep := wkStore{GVK: wkGVK{"apps", "v1", "Deployment"}, NS: ns, Name: pickS(c, wkWlNames...), Control: wkGenTopControl(c), InProgress: c.Rng.Intn(3) == 0}
 		rs := wkStore{GVK: wkGVK{"apps", "v1", "ReplicaSet"}, NS: ns, Name: dep.Name + "-rs", Owner: &wkRef{"apps/v1", "Deployment", dep.Name}}
 		if c.Rng.Intn(8) == 0 {
 			rs.Owner = nil
@@ -886,7 +894,7 @@ func wkGenStore(c *Ctx, ns string) ([]wkStore, *wkRef) {
 		ty := pickS(c, "CloneSet", "CloneSet", "StatefulSet", "AdvStatefulSet", "DaemonSet")
 		ref := wkRefOfType(ty, nil, pickS(c, wkWlNames...))
 		gv, _ := schema.ParseGroupVersion(ref.APIVersion)
-		wl := wkStore{GVK: wkGVK{gv.Group, gv.Version, ref.Kind}, NS: ns, Name: ref.Name, Control: wkGenControl(c), InProgress: c.Rng.Intn(4) == 0}
+		wl := wkStore{GVK: wkGVK{gv.Group, gv.Version, ref.Kind}, NS: ns, Name: ref.Name, Control: wkGenTopControl(c), InProgress: c.Rng.Intn(4) == 0}
 		if c.Rng.Intn(6) == 0 {
 			wl.NS = pickS(c, wkNamespaces...)
 		}
@@ -905,7 +913,7 @@ func wkGenStore(c *Ctx, ns string) ([]wkStore, *wkRef) {
 		store = append(store, wkStore{GVK: wkGVK{"apps", "v1beta2", "Deployment"}, NS: ns, Name: owner.Name, Control: wkGenControl(c)})
 	case 9:
 		// three levels
-		top := wkStore{GVK: wkGVK{"apps.kruise.io", "v1alpha1", "CloneSet"}, NS: ns, Name: "top", Control: wkGenControl(c)}
+		top := wkStore{GVK: wkGVK{"apps.kruise.io", "v1alpha1", "CloneSet"}, NS: ns, Name: "top", Control: wkGenTopControl(c)}
 		mid := wkStore{GVK: wkGVK{"apps", "v1", "Deployment"}, NS: ns, Name: "mid", Owner: &wkRef{"apps.kruise.io/v1alpha1", "CloneSet", "top"}, Control: wkGenControl(c)}
 		rs := wkStore{GVK: wkGVK{"apps", "v1", "ReplicaSet"}, NS: ns, Name: "mid-rs", Owner: &wkRef{"apps/v1", "Deployment", "mid"}}
 		store = append(store, rs, top, mid)
@@ -922,12 +930,19 @@ func wkGenPod(c *Ctx, ns string, owner *wkRef) *wkPod {
 func wkMutatePod(c *Ctx, p *wkPod) *wkPod {
 	n := *p
 	n.RV = fmt.Sprint(20 + c.Rng.Intn(3))
-	switch c.Rng.Intn(8) {
+	switch c.Rng.Intn(10) {
 	case 0:
 		n.RV = p.RV
 	case 1:
 	case 2, 3:
 		n.Ready = pickS(c, "noCond", "true", "false")
+	case 8, 9:
+		// the pod became ready / stopped being ready
+		if p.Ready == "true" {
+			n.Ready = "false"
+		} else {
+			n.Ready = "true"
+		}
 	case 4:
 		n.DepHash = pickS(c, "", "h1", "h2")
 	case 5:
